@@ -32,6 +32,8 @@ def run(ctx):
         'D3 StreamData snapshots a copy of imol + T, P, phases; set_data restores all four with phases first',
         'D4 phase views are built over the row object, locked phase, shared thermal condition',
         'D5 whole-array copies between multi-phase indexers only between equal phase tuples',
+        'D7 phases_are_empty (which decides the collapsed phase string of a MultiStream) answers True only after examining every present label of the group: '
+        'inside its loop it may only return False',
     ]
     ctx.not_decided = ['conservation over arbitrary sequences of conversions (needs D1-D5 plus an induction over histories)']
     d1 = ctx.rule('D1', 'dependents follow the storage', floor=5)
@@ -47,6 +49,8 @@ def run(ctx):
     d6 = ctx.rule('D6', 'the per-(phases, chemicals) index cache is refreshed after its inputs change', floor=3)
     from ..generic import index_cache_follows_inputs
     index_cache_follows_inputs(prog, d6)
+    d7 = ctx.rule('D7', 'emptiness of a phase group is decided over every label of the group', floor=3)
+    all_quantifier(ctx, d7)
 
 
 def _views_refreshed(x):
@@ -294,3 +298,45 @@ def alignment(ctx, d5):
                     'rows are copied by position (%s) on a path where the two phase tuples are not known to be equal' % whole, f, e.stmt)
     if not seen:
         raise AnalysisError('MaterialIndexer.copy_like: no whole-array copies found')
+
+
+def all_quantifier(ctx, rule):
+    """MultiStream.phase / reduce_phases / as_stream collapse a stream to "the phases actually present" by asking, for each of
+    the groups g, lL, sS, whether ALL rows of the group are empty.  A universally quantified answer must come from an exhausted
+    loop: a return inside the loop body other than the constant False makes the answer depend on the first label only."""
+    prog = ctx.prog
+    f = prog.method('MaterialIndexer', 'phases_are_empty', rel=IX)
+    loops = [n for n in walk_no_nested(f.node) if isinstance(n, (ast.For, ast.While))]
+    if not loops:
+        # a comprehension / any() / all() form: accept `not any(...)` / `all(not ...)` over the labels
+        rets = [n for n in walk_no_nested(f.node) if isinstance(n, ast.Return)]
+        if rets and all(isinstance(r.value, (ast.UnaryOp, ast.Call)) and ('any(' in src(r.value) or 'all(' in src(r.value)) for r in rets):
+            rule.ok('MaterialIndexer.phases_are_empty', 'quantified with any()/all() over the labels', f)
+            rule.ok('MaterialIndexer.phases_are_empty', 'no early positive answer', f)
+            rule.ok('MaterialIndexer.phases_are_empty', 'covers the requested labels', f)
+        else:
+            rule.fail('MaterialIndexer.phases_are_empty', 'no-quantifier', 'neither a loop nor any()/all() over the labels of the group', f, f.node)
+        return
+    loop = loops[0]
+    inner = [n for st in loop.body for n in ast.walk(st) if isinstance(n, ast.Return)]
+    bad = [r for r in inner if not (isinstance(r.value, ast.Constant) and r.value.value is False)]
+    if bad:
+        rule.fail('MaterialIndexer.phases_are_empty', 'early-positive-answer',
+                  'returns %s from inside the loop over the labels: the group is declared empty (or not) after looking at the first label only' % src(bad[0].value), f, bad[0])
+    elif inner:
+        rule.ok('MaterialIndexer.phases_are_empty', 'inside the loop only `return False` (a non-empty row is a counterexample)', f, inner[0])
+    else:
+        rule.fail('MaterialIndexer.phases_are_empty', 'no-counterexample', 'the loop never answers False', f, loop)
+    # after the loop: True
+    after = [n for n in f.node.body if isinstance(n, ast.Return)]
+    if after and isinstance(after[-1].value, ast.Constant) and after[-1].value.value is True:
+        rule.ok('MaterialIndexer.phases_are_empty', 'True only after the loop is exhausted', f, after[-1])
+    else:
+        rule.fail('MaterialIndexer.phases_are_empty', 'final-answer', 'the function does not end with `return True` after the loop', f, f.node)
+    # the loop ranges over the requested labels (possibly restricted to those the indexer has)
+    it = src(loop.iter) if isinstance(loop, ast.For) else ''
+    prm = f.params[1]
+    if isinstance(loop, ast.For) and any(isinstance(x, ast.Name) and x.id == prm for x in ast.walk(loop.iter)):
+        rule.ok('MaterialIndexer.phases_are_empty', 'iterates over the requested labels (%s)' % it, f, loop)
+    else:
+        rule.fail('MaterialIndexer.phases_are_empty', 'range', 'the loop does not range over the requested labels', f, loop)
